@@ -312,6 +312,11 @@ func fedItem(kind string) *explore.Item {
 	if kind == "failing-sibling" {
 		query = `{ boom users { email age } devices { tags owner { email } } admins { hiding } }`
 	}
+	if kind == "failing-sibling-of-a-blocked-one" {
+		// one sub-query is blocked on its context when another fails: the failure must cancel it
+		a["hang"] = "s4"
+		query = `{ boom hang users { email } }`
+	}
 	return &explore.Item{Name: "federation " + kind, Bound: -1, MaxSteps: 400000, MaxClock: 1000, Body: func(x *explore.Exec) {
 		ctx, cancel := rt.WithCancel(context.Background())
 		var g *fedfix.Gateway
@@ -340,7 +345,7 @@ func fedItem(kind string) *explore.Item {
 		if !returned.Peek() {
 			x.Fail("returns-on-cancel", "c15/gateway-blocks/"+kind, "the gateway request never returned")
 		}
-		if kind == "failing-sibling" && returned.Peek() && qerr == nil {
+		if strings.HasPrefix(kind, "failing-sibling") && returned.Peek() && qerr == nil {
 			x.Fail("harness", "", "the failing sub-query did not fail the request")
 		}
 		x.Outcome("err=%v", qerr != nil)
@@ -358,7 +363,7 @@ func fedItem(kind string) *explore.Item {
 }
 
 func runFed(rp *explore.Report, tier string) {
-	for _, kind := range []string{"failing-sibling", "cancelled"} {
+	for _, kind := range []string{"failing-sibling", "cancelled", "failing-sibling-of-a-blocked-one"} {
 		it := fedItem(kind)
 		it.Split = true
 		rp.Explore(it)
@@ -378,7 +383,7 @@ func runCancel(rp *explore.Report, tier string) {
 func init() {
 	reg.Register(&reg.Harness{Property: "C15", Name: "c15/cancel-federation", Level: "model_checking", Bounds: [2]int{1, 2}, Run: runFed,
 		Item: func(name string) *explore.Item { return fedItem(strings.TrimPrefix(name, "federation ")) },
-		Rule: "part (d), federation: a three-service gateway request in which one sibling sub-query fails (the error group cancels the others), and a gateway request cancelled by a thread, under every schedule within the deviation bound (gateway construction runs on the default schedule); oracle: the request returns and no thread stays blocked"})
+		Rule: "part (d), federation: a three-service gateway request in which one sibling sub-query fails (the error group cancels the others, including one that is blocked on its context), and a gateway request cancelled by a thread, under every schedule within the deviation bound (gateway construction runs on the default schedule); oracle: the request returns and no thread stays blocked"})
 	reg.Register(&reg.Harness{Property: "C15", Name: "c15/tokens", Level: "model_checking", Run: runTokens,
 		Rule: "sequential part (a): every sequence of <=4 (thorough 5) tokens over a 28-token GraphQL alphabet, bare and in two wrappers, plus fragments of 5 type conditions (matching, foreign, union, root, unknown) x 5 positions x 11 bodies (fields of the enclosing type / of the named type only / unknown / wrong shape) inline and as named spreads, plus 51 hand-written constructs (inline fragments without type condition, subscriptions, directive misuse, duplicate args/variables, fragment cycles, numeric overflow, conflicting aliases, wrong fragments under unions, ...) x 13 JSON variable maps, through Parse -> PrepareQuery -> Execute; oracle: an error or a result, never a panic. non-trivial = inputs that pass the parser"})
 	reg.Register(&reg.Harness{Property: "C15", Name: "c15/growth", Level: "model_checking", Run: runGrowth,
